@@ -243,16 +243,54 @@ Theorem C08_state_premises_satisfiable :
 Proof. exact state_premises_satisfiable. Qed.
 Print Assumptions C08_state_premises_satisfiable.
 
-(* at storage-call granularity the service's own Get-then-Set / Get-then-Delete sequences are NOT safe (HEAD code;
-   candidates reported, not yet replayed on the real service): *)
+(* the tunnel-typed handshake (sent by the in-tree client on every tunnel connection it dials): the pinned ServerAuthHandler
+   ran ConnectClient for it, moving the record to the tunnel connection — after which the close of that tunnel connection
+   "matches" and deletes the record although the control connection is registered (replayed on the REAL ServerAuthHandler
+   by the harness); with the repair the record is untouched *)
+Theorem C08_state_tunnel_handshake_refuted :
+  let rs1 := upd rs_empty 7 (Some (1%N, 10%N)) in
+  tunnel_handshake_effect true rs1 7 2 30 7 = Some (2%N, 30%N) /\
+  loc_eqb (tunnel_handshake_effect true rs1 7 2 30 7) 2 30 = true /\
+  tunnel_handshake_effect false rs1 7 2 30 7 = Some (1%N, 10%N) /\
+  loc_eqb (tunnel_handshake_effect false rs1 7 2 30 7) 2 30 = false.
+Proof. exact tunnel_handshake_refuted. Qed.
+Print Assumptions C08_state_tunnel_handshake_refuted.
+
+(* at storage-call granularity the two-call service (cas = false: GetState then SetState / DeleteState) is NOT safe: *)
 Theorem C08_state_disconnect_window_refuted :
-  exists sched, fst (rrun (rs_old, [RDisc 7 1 10; RConnect 7 2 20]) sched) 7 = None /\
-                snd (rrun (rs_old, [RDisc 7 1 10; RConnect 7 2 20]) sched) = [RDone; RDone].
+  exists sched, rloc (fst (rrun false (rs_old, [RDisc 7 1 10 0; RConnect 7 2 20]) sched)) 7 = None /\
+                snd (rrun false (rs_old, [RDisc 7 1 10 0; RConnect 7 2 20]) sched) = [RDone; RDone].
 Proof. exact disconnect_window_refuted. Qed.
 Print Assumptions C08_state_disconnect_window_refuted.
 
 Theorem C08_state_touch_window_refuted :
-  exists sched, fst (rrun (rs_old, [REnsure 7 1 10; RConnect 7 2 20]) sched) 7 = Some (1%N, 10%N) /\
-                snd (rrun (rs_old, [REnsure 7 1 10; RConnect 7 2 20]) sched) = [RDone; RDone].
+  exists sched, rloc (fst (rrun false (rs_old, [REnsure 7 1 10 0; RConnect 7 2 20]) sched)) 7 = Some (1%N, 10%N) /\
+                snd (rrun false (rs_old, [REnsure 7 1 10 0; RConnect 7 2 20]) sched) = [RDone; RDone].
 Proof. exact touch_window_refuted. Qed.
 Print Assumptions C08_state_touch_window_refuted.
+
+(* the repaired service (cas = true: touch = CompareAndSwap(read value -> touched value), rebuild = SetNX, matched delete =
+   CompareAndSwap(read value -> tombstone), each retried at most 3 times).  Let invocation i0 be ConnectClient(X, B, b) and
+   let every other invocation be safe: heartbeats (EnsureClientOnline) of ANY connection of any client, cleanups
+   (DisconnectClientIfMatch) of any connection other than (B, b), logins of other clients — at any point of their
+   execution.  Then under EVERY schedule of storage calls: once the login has returned, the record names (B, b). *)
+Theorem C08_state_login_survives_all_schedules :
+  forall (X B b : N) (i0 : nat) (sched : list nat) (s : Threads.st rshared rprog),
+  (B <> 0%N \/ b <> 0%N) ->
+  rinv X B b i0 s ->
+  nth_error (snd (rrun true s sched)) i0 = Some RDone ->
+  rloc (fst (rrun true s sched)) X = Some (B, b).
+Proof. exact state_login_survives. Qed.
+Print Assumptions C08_state_login_survives_all_schedules.
+
+Theorem C08_state_cas_windows_closed :
+  forallb (fun sched => loc_is (rloc (fst (completed (rrun true (rs_old, [RDisc 7 1 10 0; RConnect 7 2 20]) sched))) 7) 2 20)
+          (all_scheds 6 2) = true /\
+  forallb (fun sched => loc_is (rloc (fst (completed (rrun true (rs_old, [REnsure 7 1 10 0; RConnect 7 2 20]) sched))) 7) 2 20)
+          (all_scheds 6 2) = true.
+Proof. exact cas_state_windows_closed. Qed.
+Print Assumptions C08_state_cas_windows_closed.
+
+Theorem C08_state_login_premises_satisfiable : rinv 7 2 20 2 moving_state_system.
+Proof. exact moving_state_rinv. Qed.
+Print Assumptions C08_state_login_premises_satisfiable.
